@@ -25,11 +25,11 @@ def splitGen (s : String) : Option (Pfx × String) :=
   | [p, t] => if t.length = 7 then (pfxNames.lookup p).map (·, t) else none
   | _ => none
 
-/-- preset ids of the scripts: `P<k>`, `P<k>_di`, `P<k>_1` — three different ids, numbered `4k`, `4k + 1`, `4k + 2` -/
+/-- preset ids of the scripts: `P<k>`, `P<k>_di`, `P<k>_1`, `P<k>:c` — four different ids, numbered `4k` … `4k + 3` -/
 def presetNum (s : String) : Option Nat :=
   if s.startsWith "P" then
     match (s.drop 1).toString.splitOn "_" with
-    | [k] => k.toNat?.map (· * 4)
+    | [k] => if k.endsWith ":c" then (k.dropEnd 2).toString.toNat?.map (· * 4 + 3) else k.toNat?.map (· * 4)
     | [k, "di"] => k.toNat?.map (· * 4 + 1)
     | [k, "1"] => k.toNat?.map (· * 4 + 2)
     | _ => none
@@ -39,7 +39,8 @@ def showPreset (n : Nat) : String :=
   match n % 4 with
   | 0 => s!"P{n / 4}"
   | 1 => s!"P{n / 4}_di"
-  | _ => s!"P{n / 4}_1"
+  | 2 => s!"P{n / 4}_1"
+  | _ => s!"P{n / 4}:c"
 
 /-- offset of the tokens the model uses for calls whose result is not (yet) known -/
 def unknownBase : Nat := 1000000
